@@ -240,7 +240,9 @@ def discharge_one(vc):
     if os.environ.get("PYVC_DUMP"):
         _dump_n[0] += 1
         open(os.path.join(os.environ["PYVC_DUMP"], "vc%d_%04d.smt2" % (os.getpid(), _dump_n[0])), "w").write(text)
-    st, be, model = cli_check(text)
+    # lemmas are few and carry the hard string reasoning: give them three times the budget so that the
+    # verdict does not flip when the machine is busy
+    st, be, model = cli_check(text, budget=3.0 if vc.kind == "lemma" else 1.0)
     vc.status, vc.backend, vc.model, vc.time = st, be, model, time.time() - t0
     if os.environ.get("PYVC_TRACE"):
         import sys
@@ -290,7 +292,7 @@ def discharge(vcs, jobs=None, inline_heavy=True, stop_at_sat=False):
             for c in grp.pc:
                 s.add(c)
             s.add(z3.Not(grp.goal))
-            st, be, model = cli_check(s.to_smt2())
+            st, be, model = cli_check(s.to_smt2(), budget=0.25)
             done = st == "unsat"
         if done:
             dt = (time.time() - t0) / len(g)
